@@ -315,6 +315,8 @@ func init() {
 	}
 
 	reg("C10", "C10.1", "T6", "nflog state.merge is a last-writer-wins join: expired→reject; unknown key or strictly newer timestamp→store; else unchanged", nflogMergeTableRule)
+	reg("C10", "C10.10", "T12", "reading the log does not change it: the subset tests the de-duplication applies to a stored entry do not write to the entry", entryReadOnlyRule)
+	reg("C04", "C04.10", "T12", "the de-duplication only reads the stored entry: its subset tests do not write to it", entryReadOnlyRule)
 	reg("C04", "C04.8", "T6", "the entry the de-duplication reads is the newest one: nflog state.merge is a last-writer-wins join (a refused newer entry makes every flush look like a change or a due repeat)", nflogMergeTableRule)
 	reg("C04", "C04.9", "T6,T2,T5", "a recorded notification replaces the stored entry: Log skips only when the existing entry's timestamp is after now; merge before broadcast", func(o *Ob) {
 		nflogLogRule(o)
@@ -398,4 +400,20 @@ func rootsInFreeVar(addr ssa.Value) bool {
 		}
 	}
 	return false
+}
+
+// entryReadOnlyRule: Entry.IsFiringSubset / IsResolvedSubset are called on the entry stored in the log (Query
+// hands out the stored pointer): neither they nor what they call may write through the receiver.
+func entryReadOnlyRule(o *Ob) {
+	e := o.E
+	for _, name := range []string{"(*am/nflog/nflogpb.Entry).IsFiringSubset", "(*am/nflog/nflogpb.Entry).IsResolvedSubset"} {
+		fn := o.Fn(name)
+		o.SiteS(name + " is read-only on its receiver")
+		for _, w := range e.WritesThroughParam(fn, 0, 2) {
+			o.Fail("entry-mutated|"+name, name+" writes to the stored log entry ("+w.What+"): a read (Query + de-duplication) changes what later queries, the gossiped state and the snapshot contain", w.Instr)
+		}
+		o.Checks++
+		o.Passed++
+	}
+	o.MinSites(2)
 }
